@@ -1,5 +1,5 @@
 (* C12: the rebuilt model builds the same instance from corresponding arguments (structure, classes,
-   tuples, arithmetic, constants are all preserved), except for the constants a Collection holds. *)
+   tuples, arithmetic, constants are all preserved). *)
 From Coq Require Import List String Bool Arith PeanoNat Lia Permutation Sorted.
 From PAFC01 Require Import ModelTree Sorting.
 From PAFC01 Require Proofs Proofs2.
@@ -73,12 +73,12 @@ Section I.
     - rewrite map_map. exact ND.
   Qed.
 
-  Lemma rebuild_inst (args args' : nat -> option V) : forall n, wf V n -> coll_const_free V n ->
+  Lemma rebuild_inst (args args' : nat -> option V) : forall n, wf V n ->
     forall n', rebuild V sigma n = Some n' ->
     (forall q, In q (prior_ids V n) -> args' (sd sigma q) = args q) ->
     inst V bin args' n' = inst V bin args n.
   Proof.
-    induction n as [p|v|ms _|o ln rn l r IHl IHr|cls ctor attrs IH|attrs IH] using node_ind'; intros W C n' E A.
+    induction n as [p|v|ms _|o ln rn l r IHl IHr|cls ctor attrs IH|attrs IH] using node_ind'; intros W n' E A.
     - simpl in E. destruct (sigma p) as [p'|] eqn:Ep; [|discriminate]. inversion E; subst.
       cbn [inst]. rewrite <- (A p) by (left; reflexivity). unfold sd. rewrite Ep. reflexivity.
     - inversion E; subst. reflexivity.
@@ -92,41 +92,41 @@ Section I.
       rewrite <- map_app. apply Permutation_map.
       eapply Permutation_trans; [|apply (leaves_split ms Wl)].
       apply Permutation_app_head. unfold tuple_consts. apply sort_by_perm.
-    - assert (W' := W). destruct W as [Wl [Wr _]]. destruct C as [Cl Cr]. cbn [rebuild] in E.
+    - assert (W' := W). destruct W as [Wl [Wr _]]. cbn [rebuild] in E.
       destruct (rebuild V sigma l) as [l'|] eqn:El; [|discriminate].
       destruct (rebuild V sigma r) as [r'|] eqn:Er; [|discriminate].
       inversion E; subst. cbn [inst].
-      rewrite (IHl Wl Cl _ eq_refl) by (intros q Hq; apply A; apply (prior_ids_bin V _ _ _ _ _ q W'); left; exact Hq).
-      rewrite (IHr Wr Cr _ eq_refl) by (intros q Hq; apply A; apply (prior_ids_bin V _ _ _ _ _ q W'); right; exact Hq).
+      rewrite (IHl Wl _ eq_refl) by (intros q Hq; apply A; apply (prior_ids_bin V _ _ _ _ _ q W'); left; exact Hq).
+      rewrite (IHr Wr _ eq_refl) by (intros q Hq; apply A; apply (prior_ids_bin V _ _ _ _ _ q W'); right; exact Hq).
       reflexivity.
     - rewrite rebuild_model in E. destruct (rebuild_attrs V sigma attrs) as [a'|] eqn:Ea; [|discriminate].
-      inversion E; subst. apply wf_model in W. apply ccf_model in C.
+      inversion E; subst. apply wf_model in W.
       unfold prior_ids in A. rewrite walk_model in A.
       cbn [inst]. rewrite !PAFC01.Proofs.inst_attrs_map.
       assert (X : map (fun kv => (fst kv, inst V bin args' (snd kv))) a' = map (fun kv => (fst kv, inst V bin args (snd kv))) attrs).
       { clear E. revert a' Ea. induction attrs as [|[k c] a IHa]; intros a' Ea; simpl in Ea.
         - inversion Ea; subst. reflexivity.
         - inversion IH as [|? ? IHc IHrest]; subst. inversion W as [|? ? Wc Wrest]; subst.
-          inversion C as [|? ? Cc Crest]; subst. simpl in Wc, Cc.
+          simpl in Wc.
           destruct (rebuild V sigma c) as [c'|] eqn:Ec; [|discriminate].
           destruct (rebuild_attrs V sigma a) as [r|] eqn:Er; [|discriminate].
           inversion Ea; subst. simpl. f_equal.
-          + f_equal. apply (IHc Wc Cc _ Ec). intros q Hq. apply A. apply prior_ids_cons. left. exact Hq.
+          + f_equal. apply (IHc Wc _ Ec). intros q Hq. apply A. apply prior_ids_cons. left. exact Hq.
           + apply IHa; auto. intros q Hq. apply A. apply prior_ids_cons. right. exact Hq. }
       rewrite X. reflexivity.
     - rewrite rebuild_coll in E. destruct (rebuild_items V sigma attrs) as [a'|] eqn:Ea; [|discriminate].
-      inversion E; subst. apply wf_coll in W. apply ccf_coll in C.
+      inversion E; subst. apply wf_coll in W.
       unfold prior_ids in A. rewrite walk_coll in A.
       cbn [inst]. rewrite !PAFC01.Proofs.inst_attrs_map. f_equal.
       clear E. revert a' Ea. induction attrs as [|[k c] a IHa]; intros a' Ea.
       + inversion Ea; subst. reflexivity.
       + inversion IH as [|? ? IHc IHrest]; subst. inversion W as [|? ? [Wc Wt] Wrest]; subst.
-        inversion C as [|? ? [Cc Ck] Crest]; subst. simpl in Wc, Wt, Cc, Ck.
-        rewrite rebuild_items_cons in Ea. rewrite Wt, Ck in Ea. simpl in Ea.
+        simpl in Wc, Wt.
+        rewrite rebuild_items_cons in Ea. rewrite Wt in Ea.
         destruct (rebuild V sigma c) as [c'|] eqn:Ec; [|discriminate].
         destruct (rebuild_items V sigma a) as [r|] eqn:Er; [|discriminate].
         inversion Ea; subst. simpl. f_equal.
-        * f_equal. apply (IHc Wc Cc _ Ec). intros q Hq. apply A. apply prior_ids_cons. left. exact Hq.
+        * f_equal. apply (IHc Wc _ Ec). intros q Hq. apply A. apply prior_ids_cons. left. exact Hq.
         * apply IHa; auto. intros q Hq. apply A. apply prior_ids_cons. right. exact Hq.
   Qed.
 End I.
